@@ -410,7 +410,7 @@ def run(tier, seed):
     rep.assumptions = [
         "floating point (float64 products, math.Pow, rand.Float64) is idealised as exact rational arithmetic with a draw u in [0,1); the check compares with relative tolerance 1e-6",
         "Go's select: a closer / context that has already fired when Next is entered wins (since bee36b3 Next tests both before it waits; model: `next` returns halted when stopped); a stop that falls *inside* a wait races with the timer, and is judged only when it was issued well before the model's shortest delay",
-        "time.After(d) never delivers before d; measured gaps are used only as lower bounds, so upper edges of the band (MaxBackoff cap, +r) are shown on the model only",
+        "time.After(d) never delivers before d; measured gaps are used as lower bounds; the upper edges of the band (MaxBackoff cap, +r) are shown on the model, and on the real loop only coarsely (O-C17-cap: three long loops, a wait counts as late when it is 150 ms beyond its upper edge in three runs out of three)",
         "NextCh leaves watching the closer / context to its caller; the stop clause is checked for Next only",
         "option sets with non-negative back-offs, multiplier and randomisation factor; r <= 1 for the whole-nanosecond statements"]
     try:
@@ -455,6 +455,42 @@ def run(tier, seed):
         rep.count("stop-then-next with a 1 ns back-off", len(rb))
         if late or len(rb) != nb:
             burst.append({"stopped by": "closer" if use_closer else "context", "runs": len(rb), "attempts yielded after the stop": late, "script": bsc})
+    # ---- O-C17-cap: the upper edge, on long loops whose back-off stays far below MaxBackoff ----------------------
+    # (delay_below_cap / backoff_band are about the model; a measured gap is no upper bound in general — the machine may be
+    # busy — so a late attempt only counts when it is at least 150 ms late, at the same op, in three runs out of three)
+    capfail = []
+    LATE_NS = 150 * MS
+    for num, den in ((1, 1), (21, 20), (1, 2)):
+        csc = {"Opts": {"InitialNs": 200000, "MaxNs": 400 * MS, "MultNum": num, "MultDen": den, "RandNum": 1, "RandDen": 20, "MaxRetries": 0},
+               "UseCloser": False, "StartClosed": False, "StartCancelled": False, "Ops": [{"K": "n", "Us": 0} for _ in range(72)]}
+        late_sets = []
+        for attempt in range(3):
+            oc = impl.call("retryScripts", Scripts=[csc], Parallel=1)
+            rc = (oc.get("res") or [None])[0] if isinstance(oc, dict) else None
+            if not rc or len(rc) != 72 or any(r["r"] != "t" for r in rc):
+                capfail.append({"script": csc["Opts"], "problem": "the loop did not yield 72 attempts", "impl": str(oc)[:300]})
+                break
+            late = set()
+            for j, r in enumerate(rc):
+                if j == 0:
+                    continue
+                hi = min(200000 * (num / den) ** (j - 1), 400 * MS) * 1.05 + 1
+                if r["gap"] > hi + LATE_NS:
+                    late.add((j, int(hi), r["gap"]))
+            rep.count("cap: waits measured against the upper edge", 71)
+            late_sets.append(late)
+            if not late:
+                break
+        else:
+            common = set(j for j, _, _ in late_sets[0])
+            for ls in late_sets[1:]:
+                common &= set(j for j, _, _ in ls)
+            if common:
+                capfail.append({"script": csc["Opts"], "ops": "72 x Next",
+                                "problem": "attempts %s come more than 150 ms after the upper edge of their band min(Initial*Multiplier^n, Max)*(1+r), in three runs out of three" % sorted(common)[:8],
+                                "measured": sorted(late_sets[-1])[:8]})
+    rep.obligation("O-C17-cap: 72 attempts with Initial 0.2 ms, Max 400 ms and multipliers 1, 1.05, 0.5: no wait beyond the upper edge of its band (+150 ms, confirmed three times)",
+                   "O", not capfail, json.dumps(capfail, default=str)[:900])
     rep.obligation("O-C17-stop: %d x (Next; stop; Next) with a 1 ns back-off, by closer and by context: no attempt after the stop" % (2 * nb), "O", not burst, json.dumps(burst)[:600])
     rep.obligation("K-C17a: real loop vs model on %d scripts (outcomes; measured waits >= model's shortest delay; %d inconclusive)" % (len(scripts), inconcl),
                    "K", not kdis, json.dumps(kdis[:3], default=str))
@@ -485,6 +521,10 @@ def run(tier, seed):
                          tags={"fn": "Next", "clause": "afterStop", "pendingReset": False, "burst": True}):
             unknown += 1
             unknown_fns.add("stop-burst")
+    for f in capfail:
+        if rep.violation("a retry loop waits far beyond min(Initial*Multiplier^n, Max)*(1+r)", f, tags={"fn": "Next", "clause": "upperEdge"}):
+            unknown += 1
+            unknown_fns.add("cap")
     known_only = bool(groups) and unknown == 0
     loop_bad = bool(unknown_fns & {"Next", "NextCh"})
     rep.obligation("O-C17a: the monitor of the property (strict) accepts the events of every real loop run (inputs matching a known finding excepted)", "O",
